@@ -25,6 +25,9 @@ pub fn catalogue(tier: Tier) -> Vec<(Spec, u32)> {
             for variant in 0..4u8 {
                 v.push((p5_listeners(*t, m.clone(), variant), d));
             }
+            for variant in 0..4u8 {
+                v.push((p5_lifecycle(*t, m.clone(), variant), d));
+            }
             for order in 0..4u8 {
                 v.push((p7_shutdown(*t, m.clone(), order), d));
             }
